@@ -361,5 +361,5 @@ pub fn run(rep: &Report) {
     rep.assume("programs with `delete` are outside this check (a delete-only iteration reports updated=false by design: removals do not count)");
     let st = C10 { cfg: cfg() };
     rep.run_regressions(&st);
-    rep.explore(&st, rep.tier.pick(4000, 60_000), 600);
+    rep.explore(&st, rep.tier.pick(20_000, 60_000), 600);
 }
